@@ -69,7 +69,7 @@ impl ToTokens for FromDeriveInputImpl<'_> {
         let passed_body = self.data.as_ref().map(|i| {
             let ForwardedField { ident, with } = i;
             let path = match with {
-                Some(p) => quote!(#p),
+                Some(p) => super::expr_style(p).into_token_stream(),
                 None => quote_spanned!(ident.span()=> ::darling::ast::Data::try_from),
             };
             quote_spanned!(ident.span()=> #ident: #path(&#input.data)?,)
